@@ -57,7 +57,7 @@ func init() {
 
 var zzItemAlphabet = []byte{'\'', 'a', ' ', '$', ';', '\\'}
 
-// H12.expand: the placeholder callback of replacePlaceholder (lifted from the current source):
+// H12.expand: replacePlaceholder on concrete templates with symbolic item texts:
 // each placeholder expands to shell words that evaluate back to the original texts - one word per
 // item, in the order given; {n} is the ordinal; an escaped placeholder stays literal; a raw
 // placeholder earlier in the same template does not change what a quoting one expands to.
@@ -76,21 +76,30 @@ func zzH_C12_expand() {
 	cur := mk(7)
 	sel1, sel2 := mk(3), mk(5)
 	query := "q'$"
-	env := &zzEnv_expand{params: replacePlaceholderParams{
+	params := replacePlaceholderParams{
 		delimiter: Delimiter{}, printsep: "\n", query: query,
-		allItems: []*Item{cur, sel1, sel2}, executor: ex, prompt: "> "}}
-	// as the prologue of replacePlaceholder sets them
-	env.current = env.params.allItems[:1]
-	env.selected = env.params.allItems[1:]
-	expand := zzLift_expand(env)
+		allItems: []*Item{cur, sel1, sel2}, executor: ex, prompt: "> "}
+	// the real replacePlaceholder on concrete templates (placeholder discovery runs Go's regexp
+	// natively on the concrete template; the per-placeholder callback is executed symbolically)
+	prefix := ""
+	rawText := ""
+	if zzv.Bool() {
+		// a raw placeholder used earlier in the same template
+		prefix = "{r} "
+		rawText = cur.AsString(false) + " "
+	}
+	expand := func(tmpl string) string {
+		params.template = prefix + tmpl
+		res, _ := replacePlaceholder(params)
+		zzv.Assert("raw-is-item-text", len(res) >= len(rawText) && res[:len(rawText)] == rawText)
+		if len(res) < len(rawText) {
+			return ""
+		}
+		return res[len(rawText):]
+	}
 	words := func(s string) ([]string, bool) {
 		w, active, open := util.ZZShWords(s, false)
 		return w, !active && !open
-	}
-	if zzv.Bool() {
-		// a raw placeholder used earlier in the same template
-		raw := expand("{r}")
-		zzv.Assert("raw-is-item-text", raw == cur.AsString(false))
 	}
 	zzv.Reach("called")
 	switch zzv.Choose(0, 5) {
